@@ -97,6 +97,7 @@ type AccessBarrier struct {
 	freeq               *Skiplist
 	freeSeqno           uint64
 	isDestructorRunning int32
+	cleanupRequests     int32
 
 	numAllocated int64
 	numFreed     int64
@@ -179,7 +180,14 @@ func (ab *AccessBarrier) Release(bs *BarrierSession) {
 				if !ab.freeq.Insert(unsafe.Pointer(bs), CompareBS, buf, &ab.freeq.Stats) {
 					panic("unable to insert barrier session into free list")
 				}
-				if atomic.CompareAndSwapInt32(&ab.isDestructorRunning, 0, 1) {
+				// A session queued while another goroutine is finishing doCleanup()
+				// would otherwise stay pending until some future flush: whoever owns
+				// the destructor flag re-runs the cleanup for requests that arrived
+				// meanwhile.
+				atomic.AddInt32(&ab.cleanupRequests, 1)
+				for atomic.LoadInt32(&ab.cleanupRequests) > 0 &&
+					atomic.CompareAndSwapInt32(&ab.isDestructorRunning, 0, 1) {
+					atomic.StoreInt32(&ab.cleanupRequests, 0)
 					ab.doCleanup()
 					atomic.CompareAndSwapInt32(&ab.isDestructorRunning, 1, 0)
 				}
